@@ -97,6 +97,14 @@ func init() {
 			return &sliceV{abs: &absArr{n: n, name: p.strArg(a[0])}, off: p.i64(0), len: nn, cap: nn, nonNil: true}, true
 		case "Range": // symbolic int in [lo,hi]
 			v := p.freshVar(p.strArg(a[0]), 64)
+			if p.pin != nil && p.eng.randSeed != 0 {
+				// validation runs: fold the pseudo-random draw into the range (as the native vapi does)
+				lo, ok1 := concInt(a[1])
+				hi, ok2 := concInt(a[2])
+				if ok1 && ok2 && hi >= lo && (sext64(v.val, 64) < lo || sext64(v.val, 64) > hi) {
+					v = p.i64(lo + int64(v.val%uint64(hi-lo+1)))
+				}
+			}
 			p.doAssume(p.tt.BAnd(p.tt.Cmp(OpSle, a[1].(*Term), v), p.tt.Cmp(OpSle, v, a[2].(*Term))))
 			return v, true
 		case "Pick": // concrete int in [0,n): forks
